@@ -19,9 +19,10 @@ Traces == JsonDeserialize(IOEnv.TRACE_FILE)
 
 VARIABLES tid,    \* which trace
           l,      \* position in the trace (next event to consume)
-          fails   \* clause names violated by the last consumed event
+          fails,  \* clause names violated by the last consumed event
+          saving  \* a checkpoint save is in progress (between SaveBegin and SaveEnd)
 
-tvars == <<vars, tid, l, fails>>
+tvars == <<vars, tid, l, fails, saving>>
 
 Ev == Traces[tid].events[l]
 IsEvent(e) == l <= Len(Traces[tid].events) /\ Ev.ev = e
@@ -34,15 +35,17 @@ ToBools(s) == [i \in DOMAIN s |-> s[i] = 1]
 
 Report(f) == IF f = {} THEN TRUE ELSE PrintT(<<"FAIL", tid, l, Ev.ev, f>>)
 
-Step(f) == /\ fails' = f
-           /\ Report(f)
-           /\ l' = l + 1
-           /\ UNCHANGED tid
+StepS(f, sv) == /\ fails' = f
+                /\ Report(f)
+                /\ l' = l + 1
+                /\ saving' = sv
+                /\ UNCHANGED tid
+Step(f) == StepS(f, saving)
 
 TraceInit ==
     /\ tid \in 1..Len(Traces)
     /\ l = 1
-    /\ fails = {}
+    /\ fails = {} /\ saving = FALSE
     /\ pc = "ctor"
     /\ cfg = Traces[tid].cfg
     /\ iter = 0 /\ beta = 0 /\ ess = 0 /\ logz = 0 /\ wts = 0 /\ calls = 0 /\ evals = 0
@@ -131,7 +134,9 @@ TRaised ==
     /\ Step({"NoRaise"} \cup
             \* raised inside Train in a state where the code-shaped predict-only branch runs on an unfitted clusterer
             (IF pc = "reweighted" /\ cfg.clustering /\ beta > 0 /\ ~clus.fitted /\ iter % cfg.clusterEvery # 0
-             THEN {"RZ_UnfittedPredict"} ELSE {}))
+             THEN {"RZ_UnfittedPredict"} ELSE {}) \cup
+            \* raised while a checkpoint was being written: saving must work in every configuration
+            (IF saving THEN {"RZ_SaveFailed"} ELSE {}))
 
 \* observations that have no PSRun action of their own (checked against the state, no state change)
 TPosterior ==
@@ -148,7 +153,19 @@ TPosterior ==
                         PO_Uniform |-> o.resample => o.uniform,
                         PO_BlobsOnlyIfAsked |-> o.arityOK]))
 
+\* checkpoint save bracket (no PSRun state change: saving must not alter the run)
+TSaveBegin == IsEvent("SaveBegin") /\ UNCHANGED vars /\ StepS(Failing([SV_NotNested |-> ~saving]), TRUE)
+TSaveEnd   == IsEvent("SaveEnd") /\ UNCHANGED vars /\ StepS(Failing([SV_Bracket |-> saving, SV_StateUntouched |-> Ev.stateSame]), FALSE)
+
+\* a checkpoint was loaded into a freshly constructed sampler: everything that was saved is restored exactly
+TLoad ==
+    /\ IsEvent("Load")
+    /\ UNCHANGED vars
+    /\ Step(Failing([LD_Current |-> Ev.curSame, LD_History |-> Ev.histSame, LD_Counters |-> Ev.countersSame,
+                     LD_Rng |-> Ev.rngSame, LD_Known |-> Ev.known]))
+
 TraceNext ==
+    \/ TSaveBegin \/ TSaveEnd \/ TLoad
     \/ TRunBegin \/ TReweight \/ TTrain \/ TResample \/ TMutatePrior \/ TMutateBegin
     \/ TSweep \/ TMutateEnd \/ TCommit \/ TTerminate \/ TRaised \/ TPosterior
 
